@@ -36,6 +36,7 @@ fn map_layout_of(cap: usize) -> Layout {
         3 => regs::map_layout::<3>(),
         4 => regs::map_layout::<4>(),
         6 => regs::map_layout::<6>(),
+        64 => regs::map_layout::<64>(),
         300 => regs::map_layout::<300>(),
         _ => unreachable!(),
     }
@@ -48,6 +49,7 @@ fn set_layout_of(cap: usize) -> Layout {
         3 => regs::set_layout::<3>(),
         4 => regs::set_layout::<4>(),
         6 => regs::set_layout::<6>(),
+        64 => regs::set_layout::<64>(),
         300 => regs::set_layout::<300>(),
         _ => unreachable!(),
     }
@@ -155,6 +157,7 @@ fn exec(regs: &mut Regs, cx: &mut Cx, op: &Op) -> (String, Vec<usize>, Vec<usize
                         (AnyMap::C3(a), AnyMap::C3(b)) => ctl::mm(|| b.c.clone_from(&a.c)),
                         (AnyMap::C4(a), AnyMap::C4(b)) => ctl::mm(|| b.c.clone_from(&a.c)),
                         (AnyMap::C6(a), AnyMap::C6(b)) => ctl::mm(|| b.c.clone_from(&a.c)),
+                        (AnyMap::C64(a), AnyMap::C64(b)) => ctl::mm(|| b.c.clone_from(&a.c)),
                         (AnyMap::C300(a), AnyMap::C300(b)) => ctl::mm(|| b.c.clone_from(&a.c)),
                         _ => unreachable!(),
                     }
@@ -168,6 +171,7 @@ fn exec(regs: &mut Regs, cx: &mut Cx, op: &Op) -> (String, Vec<usize>, Vec<usize
                         AnyMap::C3(b) => AnyMap::C3(regs::Caged::new(ctl::mm(|| b.c.clone()))),
                         AnyMap::C4(b) => AnyMap::C4(regs::Caged::new(ctl::mm(|| b.c.clone()))),
                         AnyMap::C6(b) => AnyMap::C6(regs::Caged::new(ctl::mm(|| b.c.clone()))),
+                        AnyMap::C64(b) => AnyMap::C64(regs::Caged::new(ctl::mm(|| b.c.clone()))),
                         AnyMap::C300(b) => AnyMap::C300(regs::Caged::new(ctl::mm(|| b.c.clone()))),
                     };
                     regs.ml[*dst] = regs.ml[i];
@@ -194,6 +198,7 @@ fn exec(regs: &mut Regs, cx: &mut Cx, op: &Op) -> (String, Vec<usize>, Vec<usize
                         AnyMap::C3(_) => ops::serde_rt::decode_map::<3>(&bytes).map(|m| AnyMap::C3(regs::Caged::new(m))),
                         AnyMap::C4(_) => ops::serde_rt::decode_map::<4>(&bytes).map(|m| AnyMap::C4(regs::Caged::new(m))),
                         AnyMap::C6(_) => ops::serde_rt::decode_map::<6>(&bytes).map(|m| AnyMap::C6(regs::Caged::new(m))),
+                        AnyMap::C64(_) => ops::serde_rt::decode_map::<64>(&bytes).map(|m| AnyMap::C64(regs::Caged::new(m))),
                         AnyMap::C300(_) => ops::serde_rt::decode_map::<300>(&bytes).map(|m| AnyMap::C300(regs::Caged::new(m))),
                     };
                     let st = match c {
@@ -222,6 +227,7 @@ fn exec(regs: &mut Regs, cx: &mut Cx, op: &Op) -> (String, Vec<usize>, Vec<usize
                         AnyMap::C3(_) => AnyMap::C3(regs::Caged::new(ops::map_from_iter::<3>(*pulls, xs))),
                         AnyMap::C4(_) => AnyMap::C4(regs::Caged::new(ops::map_from_iter::<4>(*pulls, xs))),
                         AnyMap::C6(_) => AnyMap::C6(regs::Caged::new(ops::map_from_iter::<6>(*pulls, xs))),
+                        AnyMap::C64(_) => AnyMap::C64(regs::Caged::new(ops::map_from_iter::<64>(*pulls, xs))),
                         AnyMap::C300(_) => AnyMap::C300(regs::Caged::new(ops::map_from_iter::<300>(*pulls, xs))),
                     };
                     let old = std::mem::replace(&mut regs.m[i], c);
@@ -255,6 +261,7 @@ fn exec(regs: &mut Regs, cx: &mut Cx, op: &Op) -> (String, Vec<usize>, Vec<usize
                         (AnySet::C3(a), AnySet::C3(b)) => ctl::mm(|| b.c.clone_from(&a.c)),
                         (AnySet::C4(a), AnySet::C4(b)) => ctl::mm(|| b.c.clone_from(&a.c)),
                         (AnySet::C6(a), AnySet::C6(b)) => ctl::mm(|| b.c.clone_from(&a.c)),
+                        (AnySet::C64(a), AnySet::C64(b)) => ctl::mm(|| b.c.clone_from(&a.c)),
                         (AnySet::C300(a), AnySet::C300(b)) => ctl::mm(|| b.c.clone_from(&a.c)),
                         _ => unreachable!(),
                     }
@@ -268,6 +275,7 @@ fn exec(regs: &mut Regs, cx: &mut Cx, op: &Op) -> (String, Vec<usize>, Vec<usize
                         AnySet::C3(b) => AnySet::C3(regs::Caged::new(ctl::mm(|| b.c.clone()))),
                         AnySet::C4(b) => AnySet::C4(regs::Caged::new(ctl::mm(|| b.c.clone()))),
                         AnySet::C6(b) => AnySet::C6(regs::Caged::new(ctl::mm(|| b.c.clone()))),
+                        AnySet::C64(b) => AnySet::C64(regs::Caged::new(ctl::mm(|| b.c.clone()))),
                         AnySet::C300(b) => AnySet::C300(regs::Caged::new(ctl::mm(|| b.c.clone()))),
                     };
                     regs.sl[*dst] = regs.sl[i];
@@ -283,6 +291,7 @@ fn exec(regs: &mut Regs, cx: &mut Cx, op: &Op) -> (String, Vec<usize>, Vec<usize
                         AnySet::C3(_) => AnySet::C3(regs::Caged::new(ops::set_from_iter::<3>(*pulls, xs))),
                         AnySet::C4(_) => AnySet::C4(regs::Caged::new(ops::set_from_iter::<4>(*pulls, xs))),
                         AnySet::C6(_) => AnySet::C6(regs::Caged::new(ops::set_from_iter::<6>(*pulls, xs))),
+                        AnySet::C64(_) => AnySet::C64(regs::Caged::new(ops::set_from_iter::<64>(*pulls, xs))),
                         AnySet::C300(_) => AnySet::C300(regs::Caged::new(ops::set_from_iter::<300>(*pulls, xs))),
                     };
                     let old = std::mem::replace(&mut regs.s[i], c);
@@ -307,6 +316,7 @@ fn exec(regs: &mut Regs, cx: &mut Cx, op: &Op) -> (String, Vec<usize>, Vec<usize
                         AnySet::C3(_) => ops::serde_rt::decode_set::<3>(&bytes).map(|m| AnySet::C3(regs::Caged::new(m))),
                         AnySet::C4(_) => ops::serde_rt::decode_set::<4>(&bytes).map(|m| AnySet::C4(regs::Caged::new(m))),
                         AnySet::C6(_) => ops::serde_rt::decode_set::<6>(&bytes).map(|m| AnySet::C6(regs::Caged::new(m))),
+                        AnySet::C64(_) => ops::serde_rt::decode_set::<64>(&bytes).map(|m| AnySet::C64(regs::Caged::new(m))),
                         AnySet::C300(_) => ops::serde_rt::decode_set::<300>(&bytes).map(|m| AnySet::C300(regs::Caged::new(m))),
                     };
                     let st = match c {
@@ -348,6 +358,7 @@ fn exec(regs: &mut Regs, cx: &mut Cx, op: &Op) -> (String, Vec<usize>, Vec<usize
                         AnySet::C3(x) => AnySet::C3(regs::Caged::new(with_set!(b, y => ops::set_sub(&x.c, &y.c)))),
                         AnySet::C4(x) => AnySet::C4(regs::Caged::new(with_set!(b, y => ops::set_sub(&x.c, &y.c)))),
                         AnySet::C6(x) => AnySet::C6(regs::Caged::new(with_set!(b, y => ops::set_sub(&x.c, &y.c)))),
+                        AnySet::C64(x) => AnySet::C64(regs::Caged::new(with_set!(b, y => ops::set_sub(&x.c, &y.c)))),
                         AnySet::C300(x) => AnySet::C300(regs::Caged::new(with_set!(b, y => ops::set_sub(&x.c, &y.c)))),
                     };
                     regs.sl[*dst] = regs.sl[i];
@@ -422,7 +433,7 @@ fn new_regs(cfg: &parse::CaseCfg) -> Option<Regs> {
 }
 
 fn menu_ok(c: usize) -> bool {
-    matches!(c, 0 | 1 | 2 | 3 | 4 | 6 | 300)
+    matches!(c, 0 | 1 | 2 | 3 | 4 | 6 | 64 | 300)
 }
 
 fn render_events() -> String {
